@@ -397,8 +397,154 @@ def build(rng, game, version, views, rich=False, ids=None):
     if not rich or rows is None:
         return b, exp
     ver = tuple(int(x) for x in version.split('_')[:3])
+    if rng.random() < 0.5:
+        world_fields(b, rng, consts, vehicles)
     events(b, rng, exp, ver, players, vehicles, consts)
+    if rng.random() < 0.7:
+        world_fields(b, rng, consts, vehicles)          # the last update is what the final world shows
+    world_expectation(b, exp, consts, vehicles, exp.get('death_map', []))
     return b, exp
+
+
+# ---- the part of the summary that is read from the final world (crew, control points, tasks) ------------------------------------
+
+_F32 = [struct.unpack('<I', struct.pack('<f', x))[0] for x in (0.0, 1.5, -2.25, 120.0, 0.125, 3.0e5)]
+
+
+def rich_value(rng, t, hint, consts):
+    """a non-trivial value of type t (canonical form): small numbers, finite floats, short texts, 0..3 elements; the fields the controllers
+    interpret get values from the version's own tables"""
+    k = t['k']
+    if k == 'user':
+        return rich_value(rng, t['of'], hint, consts)
+    if k == 'int':
+        if hint == 'paramsId':
+            return rng.randint(1, 2 ** 32 - 1) if (t['size'] == 4 and not t['signed']) else rng.randint(0, 100)
+        hi = min(3, (1 << (8 * t['size'] - (1 if t['signed'] else 0))) - 1)
+        for nm, cls in (('category', 'Category'), ('status', 'Status'), ('type', 'TaskType')):
+            names = getattr(getattr(consts, cls, None), 'names', None)
+            if hint == nm and names:
+                return rng.choice(sorted(names))
+        return rng.randint(0, hi)
+    if k == 'f32':
+        return {'f32': rng.choice(_F32)}
+    if k == 'f64':
+        return {'f64': struct.unpack('<Q', struct.pack('<d', rng.choice([0.0, 2.5, -7.0])))[0]}
+    if k == 'vec':
+        return {'vec': [rng.choice(_F32) for _ in range(t['n'])]}
+    if k == 'string':
+        return {'s': rng.choice([b'', b'pt', b'timer_a']).hex()}
+    if k in ('blob', 'python', 'mailbox'):
+        return benign(t, hint)
+    if k == 'array':
+        inner = history.peel(t['of'])
+        if hint == 'learnedSkills' and inner['k'] == 'array' and history.peel(inner['of'])['k'] == 'int' and t['size'] is None:
+            ship_types = getattr(consts, 'SHIP_TYPE_BY_ID', None) or {}
+            skills = sorted(getattr(consts, 'SKILL_TYPE_ID_TO_NAME', None) or {1: 'x'})
+            n = max(list(ship_types) + [7]) + 1
+            return [sorted(rng.sample(skills, min(len(skills), rng.choice([0, 0, 1, 3, 6])))) + ([250] if rng.random() < 0.2 else [])
+                    for _ in range(n)]
+        n = t['size'] if t['size'] is not None else rng.randint(0, 3)
+        return [rich_value(rng, t['of'], hint, consts) for _ in range(n)]
+    if k == 'dict':
+        return {'d': [[n, rich_value(rng, f, n, consts)] for n, f in t['fields']]}
+    raise AssertionError(k)
+
+
+def jsonify(v):
+    """a canonical value as the shipped encoder shows it"""
+    if isinstance(v, list):
+        return [jsonify(x) for x in v]
+    if isinstance(v, dict):
+        if 'd' in v:
+            return {k: jsonify(x) for k, x in v['d']}
+        if 'f32' in v:
+            return struct.unpack('<f', struct.pack('<I', v['f32']))[0]
+        if 'f64' in v:
+            return struct.unpack('<d', struct.pack('<Q', v['f64']))[0]
+        if 'vec' in v:
+            return [struct.unpack('<f', struct.pack('<I', x))[0] for x in v['vec']]
+        if 's' in v:
+            raw = bytes.fromhex(v['s'])
+            try:
+                return raw.decode('utf-8')
+            except UnicodeDecodeError:
+                return str(raw)
+        if 'b' in v:
+            return str(bytes.fromhex(v['b']))
+        if 'mb' in v:
+            return list(v['mb'])
+    return v
+
+
+def field_of(v, name):
+    if isinstance(v, dict) and 'd' in v:
+        for k, x in v['d']:
+            if k == name:
+                return x
+    return None
+
+
+def world_fields(b, rng, consts, vehicles):
+    """non-trivial crew parameters on the vehicles and a non-trivial state on the battle logic (sent as updates after creation)"""
+    for vid in vehicles:
+        if vid in b.world and rng.random() < 0.8:
+            for name, size, t, flags in b.views[b.world[vid]['type']]['clientProps']:
+                if name == 'crewModifiersCompactParams':
+                    b.set_prop(vid, name, rich_value(rng, history.peel(t), name, consts))
+    if LOGIC_ID in b.world:
+        for name, size, t, flags in b.views[b.world[LOGIC_ID]['type']]['clientProps']:
+            if name == 'state' and history.peel(t)['k'] == 'dict':
+                b.set_prop(LOGIC_ID, name, rich_value(rng, history.peel(t), name, consts))
+
+
+def world_expectation(b, exp, consts, vehicles, deaths):
+    """what the summary must say about the final world, restated from the tracker and the version's own tables"""
+    state = (b.world.get(LOGIC_ID) or {}).get('client', {}).get('state')
+    cps = field_of(state, 'controlPoints')
+    if cps is not None:
+        exp['control_points'] = jsonify(cps)
+    tasks = field_of(state, 'tasks')
+    cat, st, tt = (getattr(getattr(consts, c, None), 'names', None) for c in ('Category', 'Status', 'TaskType'))
+    if isinstance(tasks, list) and cat and st and tt:
+        out = []
+        # two generations of controllers: from 12.7.0 on a task is listed by its `id` and only when it is shown on the HUD; before
+        # that every task is listed by its `name`
+        newer = tuple(int(x) for x in b.version.split('_')[:3]) >= (12, 7, 0)
+        for task in tasks:
+            if newer and not field_of(task, 'showOnHUD'):
+                continue
+            out.append({'category': cat[field_of(task, 'category')], 'status': st[field_of(task, 'status')],
+                        'name': jsonify(field_of(task, 'id' if newer else 'name')), 'type': tt[field_of(task, 'type')]})
+        exp['tasks'] = out
+    ship_types = getattr(consts, 'SHIP_TYPE_BY_ID', None)
+    skill_names = getattr(consts, 'SKILL_TYPE_ID_TO_NAME', None)
+    if ship_types and skill_names is not None:
+        crew = {}
+        vidx = b.type_index('Vehicle')
+        for eid, ent in b.world.items():
+            if ent['type'] != vidx:
+                continue
+            params = ent['client'].get('crewModifiersCompactParams')
+            packed = field_of(params, 'learnedSkills')
+            if not isinstance(packed, list) or (packed and not isinstance(packed[0], list)):
+                crew = None
+                break
+            learned = {}
+            for type_id, type_name in ship_types.items():
+                if not packed[type_id]:
+                    continue
+                learned[type_name] = [skill_names.get(sid) for sid in packed[type_id]]
+            crew[eid] = {'crew_id': field_of(params, 'paramsId'), 'learned_skills': learned}
+        if crew is not None:
+            exp['crew'] = crew
+    dt = getattr(consts, 'DEATH_TYPES', None)
+    if isinstance(dt, dict) and dt and all(isinstance(x, dict) and 'icon' in x and 'name' in x for x in dt.values()):
+        info = {}
+        for victim, killer, typ in deaths:
+            if typ in dt:
+                info[victim] = {'killer_id': killer, 'icon': dt[typ]['icon'], 'name': dt[typ]['name']}
+        exp['death_info'] = info
 
 
 def events(b, rng, exp, ver, players, vehicles, consts):
@@ -666,7 +812,8 @@ def compare_summary(hidden_json, exp):
     bad = {}
     if not isinstance(hidden_json, dict):
         return {'hidden': (str(hidden_json)[:100], 'a summary')}
-    for k in ('player_id', 'map', 'arena_id', 'death_map', 'achievements', 'shots_damage_map', 'damage_map', 'ribbons', 'battle_result'):
+    for k in ('player_id', 'map', 'arena_id', 'death_map', 'achievements', 'shots_damage_map', 'damage_map', 'ribbons', 'battle_result',
+              'control_points', 'tasks', 'crew', 'death_info'):
         if k in exp and k in hidden_json and hidden_json[k] != norm(exp[k]):
             bad[k] = (str(hidden_json[k])[:200], str(norm(exp[k]))[:200])
     if 'players' in exp and 'players' in hidden_json:
